@@ -201,6 +201,10 @@ def decode_dump(root):
                     rows.append({k: fields[k].cast_value(v) for k, v in zip(header, cells)})
         names.append(r['name'])
         allrows.append(rows_norm(rows))
+        if 'count_of_rows' in r and r['count_of_rows'] != len(rows):
+            return ('incomplete', 'descriptor reports %r rows for %s, the file holds %d' % (r['count_of_rows'], r['name'], len(rows)))
+    if 'count_of_rows' in desc and desc['count_of_rows'] != sum(len(r) for r in allrows):
+        return ('incomplete', 'descriptor reports %r rows in total, the files hold %d' % (desc['count_of_rows'], sum(len(r) for r in allrows)))
     return ('package', names, allrows)
 
 
